@@ -69,11 +69,20 @@ type vIndex struct {
 	// other threads run); other callers may hold the window's lock and are never parked here
 	slowFor atomic.Uint64
 	yield   func()
+	// failIn > 0: the failIn-th lookup from now fails once (a transient disk read error)
+	failIn atomic.Int64
+	failed atomic.Int64
 }
+
+var errC09IndexRead = errors.New("injected chain index read error")
 
 func (x *vIndex) GetExecutionBlock(_ context.Context, id ids.ID) (validitywindow.ExecutionBlock[*vItem], error) {
 	if g := x.slowFor.Load(); g != 0 && x.yield != nil && simk.GID() == g {
 		x.yield()
+	}
+	if x.failIn.Load() > 0 && x.failIn.Add(-1) == 0 {
+		x.failed.Add(1)
+		return nil, errC09IndexRead
 	}
 	x.mu.Lock()
 	defer x.mu.Unlock()
@@ -390,10 +399,33 @@ func c09Window(r *simk.Run) *simk.Violation {
 					idx.del(p.id)
 				}
 				processing = nil
+				// in a third of the restarts one chain-index read fails while the window is rebuilt (transient
+				// disk error): the node then holds a partial window and, like the VM before it enters normal
+				// operation, completes it from the index once reads work again
+				readFault := c.Bool(0.33)
+				if readFault {
+					idx.failIn.Store(int64(1 + c.Intn(4)))
+				}
 				nw, err := validitywindow.NewTimeValidityWindow[*vItem](ctx, logging.NoLog{}, trace0(), idx, accepted[at], getW)
+				idx.failIn.Store(0)
 				if err != nil {
 					fail("harness", "%v", err)
 					break
+				}
+				if readFault && idx.failed.Load() > 0 {
+					s.FaultFired("index-read-error-at-restart")
+					note("index read error during restart, window completed afterwards")
+					if !nw.Complete(ctx, accepted[at]) {
+						// the index does not reach back far enough: the VM would refuse normal operation
+						s.Probe("window_incomplete_after_restart")
+						restarted = true
+						winMu.Lock()
+						win = nw
+						winMu.Unlock()
+						startAccepter()
+						op = nOps
+						continue
+					}
 				}
 				// re-processing of the blocks indexed above the state: verify + accept, in order
 				for i := at + 1; i < len(accepted); i++ {
